@@ -314,6 +314,11 @@ def t_faithful(D, N, L, dt, mode):
                 return False, (f"{sess} session: one {n} step (D={D}, N={N}, L={L}, dt={dt}) of a single Fourier mode deviates from the analytic "
                                f"solution by {e:.3e} (allowed {tol:.0e}): the session does not work in {sess} precision throughout")
             worst[sess] = max(worst.get(sess, 0.0), e)
+        for tag, fr in r.get("foreign", {}).items():
+            if fr["dtype"] != sess:
+                return False, f"{sess} session: a state of dtype {tag.split('/')[1]} stepped by {tag.split('/')[0]} comes back as {fr['dtype']}, not as the session's {sess}"
+            if not fr["dev"] <= 1e-5:
+                return False, f"{sess} session: {tag}: result differs from the step of the same values in {sess} by {fr['dev']:.3e}"
     return True, f"D={D}: analytic single-mode errors {worst}"
 
 
@@ -410,6 +415,13 @@ def plan(ctx):
                     params = dict(cls=name, D=D, N=NS[D], order=order, kw=kw, dt=0.01, L=3.0, seed=sd)
                     out.append(("stepper", params))
                     out.append(("precision", params))
+    # very large and very small domains (tiny / huge derivative symbols): guards written with a precision-dependent tolerance and scale-dependent
+    # cancellations show as a float32 / float64 disagreement there
+    for name, D in (("NavierStokesVorticity", 2), ("KolmogorovFlowVorticity", 2), ("Burgers", 1), ("NavierStokesVelocity", 3)) if not deep else \
+            (("NavierStokesVorticity", 2), ("KolmogorovFlowVorticity", 2), ("Burgers", 1), ("NavierStokesVelocity", 3), ("KuramotoSivashinsky", 2), ("Wave", 2)):
+        for Lx in (5e4, 1e-2):
+            params = dict(cls=name, D=D, N=NS[D] if D < 3 else 8, order=2 if registry.has_order(name) else None, kw=variants(name)[0], dt=0.01, L=Lx, seed=ctx.seed)
+            out.append(("precision", params))
     # "round" symbols on a real grid: Burgers on L = 2 pi has integer wavenumbers, nu k^2 dt = 1 exactly for some resolved k
     for nu, dt in ((1.0, 0.25), (0.25, 1.0), (1.0, 1.0)) if deep else ((1.0, 0.25),):
         for order in (1, 2, 3, 4):
